@@ -63,6 +63,21 @@ theorem idxFrom_eq_idxOf {p : Byte → Bool} {l : List Byte} {skip : Nat}
   rw [idxOf_append_of_none h]
   simp [List.length_take, Nat.min_eq_left hs]
 
+theorem idxOf_take_none {p : Byte → Bool} {l : List Byte} (n : Nat) (h : idxOf p l = none) :
+    idxOf p (l.take n) = none := by
+  rw [idxOf_none_iff] at h ⊢
+  intro b hb; exact h b (List.mem_of_mem_take hb)
+
+/-- the same without a bound on `skip` (a window that shrank below the resume offset, after a fall back) -/
+theorem idxFrom_eq_idxOf' {p : Byte → Bool} {l : List Byte} {skip : Nat}
+    (h : idxOf p (l.take skip) = none) : idxFrom p l skip = idxOf p l := by
+  by_cases hs : skip ≤ l.length
+  · exact idxFrom_eq_idxOf h hs
+  · have h1 : l.take skip = l := List.take_of_length_le (by omega)
+    have h2 : l.drop skip = [] := List.drop_of_length_le (by omega)
+    rw [h1] at h
+    simp [idxFrom, h2, idxOf, h]
+
 theorem idxOf_some_spec {p : Byte → Bool} {l : List Byte} {i : Nat} (h : idxOf p l = some i) :
     idxOf p (l.take i) = none ∧ p (l.getD i 0) = true := by
   induction l generalizing i with
